@@ -58,10 +58,10 @@ def run(ctx: Ctx) -> None:
                 bad_part = [rng.choice(["MUSS", "KANN"]), "Muss", bad_cond]
                 bad_part[1] = V.MODAL[bad_part[0]][0]
                 pos = rng.randint(0, len(ok_parts))
-                node["expr"] = {"parts": ok_parts[:pos] + [bad_part] + ok_parts[pos:], "invalid": True}
+                node["expr"] = {"parts": ok_parts[:pos] + [bad_part] + ok_parts[pos:], "invalid": True, "bad": pos}
             else:
                 w = rng.choice(["Muss", "M", "X", "Soll"])
-                node["expr"] = {"parts": [["X" if w == "X" else "MUSS", w, bad_cond]], "invalid": True}
+                node["expr"] = {"parts": [["X" if w == "X" else "MUSS", w, bad_cond]], "invalid": True, "bad": 0}
             if kind == "entry":
                 invalid_entries += 1
             else:
@@ -82,13 +82,24 @@ def run(ctx: Ctx) -> None:
                 # is the abort really about an invalid expression?  A planted multi-part expression may contain a (valid-looking) part that the library cannot
                 # evaluate at all (a juxtaposition run that Lark groups as format constraint next to format constraint raises NotImplementedError); the AHB
                 # with 'Kann' in its place no longer contains that part, so the two runs are not comparable
-                own = []
+                other_part_raises, not_recognised = False, None
                 for kind, node, _ in V.walk(spec):
                     for x in ([e["expr"] for e in node["entries"]] if kind == "pool" else [node["expr"]]):
-                        if x.get("invalid"):
-                            own.append(V.eval_node_expr(V.expr_text(x), cer))
-                if any("raises" in ev for ev in own):
-                    ctx.count("skipped", "a planted expression raises on its own (not an invalid-expression error)")
+                        if not x.get("invalid"):
+                            continue
+                        for j, part in enumerate(x["parts"]):
+                            ev = V.eval_node_expr(V.expr_text({"parts": [part]}), cer)
+                            if j == x.get("bad", 0):
+                                if "invalid" not in ev:
+                                    not_recognised = (V.expr_text({"parts": [part]}), ev)
+                            elif "raises" in ev:
+                                other_part_raises = True
+                if not_recognised is not None:
+                    ctx.violation("a structurally invalid expression is not treated as invalid (evaluated on its own it does not raise the invalid-expression error)",
+                                  {**rep, "expression": not_recognised[0], "evaluated_alone": not_recognised[1]}, key=f"not-recognised:{not_recognised[0]}")
+                    continue
+                if other_part_raises:
+                    ctx.count("skipped", "another part of a planted multi-part expression raises on its own (not an invalid-expression error)")
                     continue
                 ctx.violation(f"an invalid expression aborts validation ({a['err']})", rep, key=f"abort:{a['err']}")
             continue
